@@ -85,9 +85,13 @@ type Spec struct {
 	Rule string
 	Real []string
 	Stub []string
+	// LightRuns: the world creates no pooled objects that embed channels (no Pebble, no gRPC);
+	// the two collections after every run are then skipped (one every 512 runs instead).
+	LightRuns bool
 	// RequiredProbes must be non-zero over a batch or the harness self-check fails (exit 2).
 	RequiredProbes []string
 	Assumptions    []string
+	nexec          int
 }
 
 type replayFile struct {
@@ -217,8 +221,11 @@ func (sp *Spec) execOnce(t *testing.T, s Schedule) *Outcome {
 	debug.SetGCPercent(gcOld)
 	// Two collections empty every sync.Pool: pooled objects that embed channels
 	// (Pebble's sstable write tasks) must never travel from one bubble to the next.
-	runtime.GC()
-	runtime.GC()
+	sp.nexec++
+	if !sp.LightRuns || sp.nexec%512 == 0 {
+		runtime.GC()
+		runtime.GC()
+	}
 	if pv != nil {
 		if out == nil {
 			out = NewOutcome()
@@ -380,7 +387,7 @@ func (sp *Spec) batch(t *testing.T) {
 			switch {
 			case v.Prop == "INCONCLUSIVE":
 				res.Inconcl++
-			case v.Prop != sp.Prop && v.Prop != "HARNESS":
+			case v.Prop != sp.Prop && v.Prop != "HARNESS" && os.Getenv("VERIF_ALLPROPS") != "1":
 				res.OtherProp[v.Prop+"/"+v.Oracle]++
 			case known[v.Prop+"\x00"+v.Sig]:
 				res.Known[v.Sig]++
